@@ -118,3 +118,13 @@ Definition flow_particle (front_py : bool) (t : tables) (t2 : tables2) (powt : l
     end
   | _ => []
   end.
+
+(* ---- round 4: the clock of T.  psim/primsim: [t] = in a simulation at time t, [] = sim pointer NULL ---- *)
+Definition optf (l : list float) : option float := match l with [t] => Some t | _ => None end.
+Definition ofps (t : tables) (t2 : tables2) (G : float) (psim primsim p prim : list float) : list float :=
+  match orbit_from_particle_sim FNum (libm_of t) (libm2_of t2) TINY G (optf psim) (optf primsim) (mkp p) (mkp prim) with
+  | inl c => [f_ofZ c]
+  | inr o => [0; o_d o; o_v o; o_h o; o_P o; o_n o; o_a o; o_e o; o_inc o; o_Omega o; o_omega o; o_pomega o; o_f o; o_M o;
+              o_l o; o_theta o; o_T o; o_rhill o; o_pal_h o; o_pal_k o; o_pal_ix o; o_pal_iy o;
+              o_hx o; o_hy o; o_hz o; o_ex o; o_ey o; o_ez o]
+  end.
